@@ -90,6 +90,25 @@ def run(ctx):
     core.lean_phase(ctx)
     rng = ctx.rng
     reqs, metas = [], []
+
+    def flush():
+        outs = ctx.driver.run(reqs) if reqs else []
+        for req, (op, replay, (info, doc, res_doc, impl_ok)), out in zip(reqs, metas, outs):
+            ctx.count("model_requests")
+            if "ok" not in out:
+                if impl_ok:
+                    ctx.mismatch("invert", replay, "impl inverse restores", out)
+                continue
+            stm, inv = outcome(lambda: info.un_step(out["ok"]))
+            if stm != "ok":
+                ctx.mismatch("invert", replay, "decodable inverse", str(inv))
+                continue
+            stb, back = outcome(lambda: inv.apply(res_doc))
+            model_ok = stb == "ok" and back.doc is not None and back.doc.eq(doc)
+            if model_ok != impl_ok:
+                ctx.mismatch("invert", replay, f"impl inverse restores={impl_ok}", f"model inverse restores={model_ok}")
+        del reqs[:], metas[:]
+
     fam = schemas.family()
     n_s = ctx.budget(30, 80)
 
@@ -177,6 +196,8 @@ def run(ctx):
                 undo_single(ctx, info, tr.docs[k], s, nxt, reqs, metas, "history")
 
     for si in range(n_s):
+        if len(reqs) >= 15000:
+            flush()     # keep memory bounded in long runs
         bundled = si < len(fam) or rng.random() < 0.6
         info = fam[si % len(fam)] if bundled else schemas.random_schema(rng)
         schema = info.schema
@@ -201,21 +222,7 @@ def run(ctx):
             if schema.marks:
                 for _ in range(2):
                     history(info, d, docs, ops.MARK_OPS, rng.randint(1, 3))
-    outs = ctx.driver.run(reqs) if reqs else []
-    for req, (op, replay, (info, doc, res_doc, impl_ok)), out in zip(reqs, metas, outs):
-        ctx.count("model_requests")
-        if "ok" not in out:
-            if impl_ok:
-                ctx.mismatch("invert", replay, "impl inverse restores", out)
-            continue
-        stm, inv = outcome(lambda: info.un_step(out["ok"]))
-        if stm != "ok":
-            ctx.mismatch("invert", replay, "decodable inverse", str(inv))
-            continue
-        stb, back = outcome(lambda: inv.apply(res_doc))
-        model_ok = stb == "ok" and back.doc is not None and back.doc.eq(doc)
-        if model_ok != impl_ok:
-            ctx.mismatch("invert", replay, f"impl inverse restores={impl_ok}", f"model inverse restores={model_ok}")
+    flush()
     return ctx.finish(
         rule="a case is a single applied replace/replace-around/attr/doc-attr/node-mark step (every schema) or a history of "
              "1..12 random Transform operations (bundled-family schemas); distinct by content; non-trivial = at least one step")
